@@ -43,9 +43,12 @@ structure World where
   caches : List CacheFile
   now : Nat
   extras : List Extra := []
+  /-- table files kept outside the installation directories (static) -/
+  tfiles : List TFile := []
   deriving Repr
 
-def World.init (nst : Nat) (dirs : List DirEnt) : World := ⟨nst, Spec.empty, dirs, [], [], 1, []⟩
+def World.init (nst : Nat) (dirs : List DirEnt) (tfiles : List TFile := []) : World :=
+  ⟨nst, Spec.empty, dirs, [], [], 1, [], tfiles⟩
 
 /-! ## pieces of a `Spec` -/
 
@@ -293,11 +296,11 @@ def stepG (fixed : Bool) (w : World) : WCmd → StepResult
   | .clearCache u => ⟨.ok, false, [], Spec.empty, [], [], { w with caches := w.caches.filter fun x => x.user != u }⟩
   | .run u c crash =>
     let (m, fl, w1) := load w u c.self
-    let (out, p) := run w.nst c ⟨w1.db, m, w1.dirs, [], w1.extras⟩
+    let (out, p) := run w.nst c ⟨w1.db, m, w1.dirs, [], w1.extras, w.tfiles⟩
     let cut : List Eff × Option Eff := match crash with
       | none => (p.tr, none)
       | some k => cutAfterDb p.tr k
-    ⟨out, cut.2.isSome, fl, m, cut.1 ++ cut.2.toList, wouldDo w.nst c ⟨w1.db, m, w1.dirs, [], w1.extras⟩,
+    ⟨out, cut.2.isSome, fl, m, cut.1 ++ cut.2.toList, wouldDo w.nst c ⟨w1.db, m, w1.dirs, [], w1.extras, w.tfiles⟩,
      replay fixed u (heldOf fl) (w1, m) cut.1 cut.2⟩
 
 def step (w : World) (c : WCmd) : World := (stepG true w c).w
@@ -311,7 +314,7 @@ def stepPinnedD16 (w : World) : WCmd → World
   | .clearCache u => { w with caches := w.caches.filter fun x => x.user != u }
   | .run u c _ =>
     let (m, _, w1) := loadPinned w u c.self
-    let (_, p) := run w.nst c ⟨w1.db, m, w1.dirs, [], w1.extras⟩
+    let (_, p) := run w.nst c ⟨w1.db, m, w1.dirs, [], w1.extras, w.tfiles⟩
     (p.tr.foldl (applyWPinned u) (w1, m)).1
 
 /-- what a fresh process of the pinned tree sees through the cache -/
@@ -331,7 +334,7 @@ def stepF (Fw : DbFile.FileDb × World) (c : WCmd) : DbFile.FileDb × World :=
   let r := stepG true Fw.2 c
   (r.trace.foldl (fun F e => DbFile.applyF e F) Fw.1, r.w)
 
-def runHistoryF (nst : Nat) (dirs : List DirEnt) (h : List WCmd) : DbFile.FileDb × World :=
-  h.foldl stepF (DbFile.FileDb.empty, World.init nst dirs)
+def runHistoryF (nst : Nat) (dirs : List DirEnt) (h : List WCmd) (tfiles : List TFile := []) : DbFile.FileDb × World :=
+  h.foldl stepF (DbFile.FileDb.empty, World.init nst dirs tfiles)
 
 end EupsModel.Cache
